@@ -13,6 +13,8 @@ import FordModel.Lemmas.StrLink
 import FordModel.Lemmas.ReadMore
 import FordModel.Lemmas.Relurl
 import FordModel.Lemmas.Assets
+import FordModel.Lemmas.Footnotes
+import FordModel.Lemmas.Memo
 import FordModel.Generated.C09
 namespace Ford.C09
 open Ford Ford.Path Ford.Nav Ford.Url Ford.StrLink Ford.ReadMore Ford.Relurl Ford.Assets Ford.Generated.C09
@@ -415,6 +417,82 @@ theorem page_copy_index_only_witness :
     let p : Assets.PageNode := ⟨[['g', 'u', 'i', 'd', 'e']], ['t', 'u', 't'], [(['f', 'i', 'g', 's'], [[['p', '.', 'p', 'n', 'g']]])], []⟩
     resolve ([['o', 'u', 't']] ++ pageDirOf p) [['f', 'i', 'g', 's'], ['p', '.', 'p', 'n', 'g']] ∉
       (pageWrites ⟨.indexOnly, .always⟩ p).map ([['o', 'u', 't']] ++ ·) := by
+  decide
+
+/-! ## round 5: state that outlives one page / one text — the Markdown converter, a cache in front of `relurl` -/
+
+/-- Generic form, for any table of resetting sites: in a run of any length, with any labels and any table left in the
+    converter at the start, a text that is converted at a site that starts from a reset converter, and that refers to
+    each footnote it defines, gets only its own footnotes listed — every back-link `#fnref:l` and every reference
+    `#fn:l` in it names an element of the same converted text. -/
+theorem footnote_links_sound (T : Footnotes.Tables) (seen : List Footnotes.Site) (st : List Str)
+    (convs : List Footnotes.Conv)
+    (p : Footnotes.Conv × Footnotes.Out) (hp : p ∈ convs.zip (Footnotes.convertAll T seen st convs))
+    (hs : p.1.site ∈ T.resets) (hw : ∀ l ∈ p.1.defs, l ∈ p.1.refs) : Footnotes.linksOk p.2 = true :=
+  Footnotes.convertAll_ok T convs seen st p hp hs hw
+
+/-- Clause "any `#fragment` names an element present in that file", for the footnote links of the texts users write
+    footnotes in: over the sites regenerated by probing the real pipeline (`mdTables`), the front page text, every
+    doc comment — whichever entity, however many were converted before it by the same converter — and every static
+    page get only their own footnotes.  (`_partial`: the three conversions that the code as it is starts *without* a
+    reset — `summary:` metadata, project summary, author description — are outside; that is the explicit hypothesis
+    `hx`; see `footnote_leak_witness` and finding C09-footnotes-leak-into-conversions-without-reset.) -/
+theorem footnote_links_resolve_partial (seen : List Footnotes.Site) (st : List Str) (convs : List Footnotes.Conv)
+    (p : Footnotes.Conv × Footnotes.Out) (hp : p ∈ convs.zip (Footnotes.convertAll mdTables seen st convs))
+    (hx : p.1.site ∈ Footnotes.mainSites) (hw : ∀ l ∈ p.1.defs, l ∈ p.1.refs) :
+    Footnotes.linksOk p.2 = true := by
+  have hall : Footnotes.tablesOk mdTables = true := by decide
+  have hs : p.1.site ∈ mdTables.resets := by
+    have := List.all_eq_true.1 hall _ hx
+    simpa using this
+  exact footnote_links_sound mdTables seen st convs p hp hs hw
+
+/-- Full strength, for a tree in which every conversion site resets (with fixes/C09-md-reset-summaries.diff the probe
+    reports all six). -/
+theorem footnote_links_resolve (hfix : Footnotes.allSites.all (fun s => decide (s ∈ mdTables.resets)) = true)
+    (seen : List Footnotes.Site) (st : List Str) (convs : List Footnotes.Conv) (p : Footnotes.Conv × Footnotes.Out)
+    (hp : p ∈ convs.zip (Footnotes.convertAll mdTables seen st convs)) (hw : ∀ l ∈ p.1.defs, l ∈ p.1.refs) :
+    Footnotes.linksOk p.2 = true := by
+  have hs : p.1.site ∈ mdTables.resets := by
+    have hmem : p.1.site ∈ Footnotes.allSites := by cases p.1.site <;> decide
+    have := List.all_eq_true.1 hfix _ hmem
+    simpa using this
+  exact footnote_links_sound mdTables seen st convs p hp hs hw
+
+/-- The excluded class genuinely violates the property in the code as it is: the `summary:` metadata of an entity is
+    converted right after its doc comment without a reset and gets that comment's footnote listed, with a back-link
+    to a reference that is not in the summary.  And why the reset must come before **every** doc comment: with one
+    reset per project (in front of the loop: only the first doc comment starts clean), the second entity's documentation
+    lists the first one's footnote. -/
+theorem footnote_leak_witness :
+    (Footnotes.convertAll Footnotes.asIs [] [] [⟨.entityDoc, false, [['n']], [['n']]⟩, ⟨.entitySummary, false, [], []⟩]).map Footnotes.linksOk
+        = [true, false] ∧
+      (Footnotes.convertAll { resets := [], resetsFirst := [.entityDoc] } [] [] [⟨.entityDoc, false, [['n']], [['n']]⟩, ⟨.entityDoc, false, [], []⟩]).map Footnotes.linksOk
+        = [true, false] := by
+  decide
+
+/-- Clause "from every page depth (… nested static pages)", for everything the templates put through the `relurl`
+    filter: over the reuse key regenerated by probing the registered filter (`memoKey`), for **every** sequence of
+    filter calls — any texts, any pages, any order — each call returns what `relative_url` computes for the directory
+    of the page it is rendered on; an earlier page's result is never handed to a page in another directory, however
+    alike their names. -/
+theorem relurl_filter_is_function_of_page {β : Type} (f : Str → List Seg → β) (calls : List (Str × List Seg)) :
+    Memo.runCached memoKey f [] calls = calls.map (fun c => f c.1 (dirOf c.2)) :=
+  Memo.cached_eq_direct memoKey (by decide) f calls
+
+/-- Why the key of such a cache must be the whole directory: keyed by the *name* of the page's directory,
+    `page/examples/first.html` is given the reference computed for `page/dev/examples/index.html`, which from there
+    leads to `examples/index.html` in the output root — a file that does not exist. -/
+theorem relurl_cache_by_dir_name_witness :
+    let out : List Seg := [['o']]
+    let tgt : List Seg := out ++ [['p', 'a', 'g', 'e'], ['e', 'x'], ['i']]
+    let deep : List Seg := out ++ [['p', 'a', 'g', 'e'], ['d', 'e', 'v'], ['e', 'x'], ['i']]
+    let flat : List Seg := out ++ [['p', 'a', 'g', 'e'], ['e', 'x'], ['f']]
+    let f : Str → List Seg → List Seg := fun _ d => resolve d (relpath tgt d)
+    Memo.runCached .pageDir f [] [([], deep), ([], flat)] = [tgt, tgt] ∧
+      Memo.runCached .dirName (fun _ d => relpath tgt d) [] [([], deep), ([], flat)]
+        = [relpath tgt (dirOf deep), relpath tgt (dirOf deep)] ∧
+      resolve (dirOf flat) (relpath tgt (dirOf deep)) = out ++ [['e', 'x'], ['i']] := by
   decide
 
 /-- Non-vacuity of the hypotheses above on a concrete entity: a variable of a type
